@@ -165,10 +165,15 @@ theorem user_task_error_completes_once (a : Acc) (dest uid : Nat) (t : Task) (e 
   rcases ht with h | ⟨_, _, h⟩ | ⟨_, h⟩ | ⟨_, h⟩ | ⟨_, h⟩ | h <;> subst h <;> simp [taskOnError, complete, emit]
 
 /-
-`bounded_duration` (full statement): a request of n protocol steps completes within n response
-timeouts.  In the model every wait mode carries a deadline `now + rto` set when the request goes
-out, and `onTime` ends the task once `deadline ≤ now` — except the link status task, whose
-deadline is re-armed after every processed message (`onMessage`, finding D24).
+`bounded_duration`: a request of n protocol steps completes within n response timeouts.  In the
+model every wait mode carries a deadline `now + rto` that is set when the step's request goes out
+(`beginTask`, `runSingle`, the next fragment of a READ series in `onFragment`), `onTime` ends the
+task once `deadline ≤ now` (`timeout_ends_wait`), and no message from a handle moves a deadline
+(`message_never_extends_wait`).  For the link status check (one step) this is
+`link_check_deadline_at_start`, `link_check_deadline_fixed` and `link_check_bounded`: the check is
+over at the latest one response timeout after its request.  (Until the repair of D24 the real
+`run_link_status_task` re-armed its timeout after every processed message; the former
+counterexample is kept as the regression `link_check_not_rearmed_regression`.)
 -/
 
 /-- a timed-out wait always ends the task: `onTime` never leaves a wait whose deadline has passed -/
@@ -182,16 +187,101 @@ theorem timeout_ends_wait (s : MState) (h : match s.mode with
   unfold onTime
   cases hm : s.mode <;> simp [hm] at h ⊢ <;> simp [h]
 
-/-- D24 witness: a link status check whose timeout (1000 ms) is re-armed by an unrelated message
-    at 999 ms is still outstanding at 1998 ms -/
+/-- the three response waits -/
+def isWait : Mode → Prop
+  | .waitRead .. => True
+  | .waitNonRead .. => True
+  | .waitLink .. => True
+  | _ => False
+
+/-- no message from a handle (user request, poll management, association management, enable) extends
+    a response wait: if the task is still waiting afterwards, it waits in the same mode — same
+    request, same deadline -/
+theorem message_never_extends_wait (s : MState) (m : Option Msg) (a' : Acc) (hw : isWait s.mode)
+    (h : onMessage (s, []) m = .waiting a') : a'.1.mode = s.mode := by
+  unfold onMessage at h
+  cases m with
+  | none =>
+    cases hm : s.mode <;> simp [hm, isWait] at hw h
+  | some msg =>
+    have hpm := Proofs.Master.processMessage_mode (s, []) true msg
+    cases hm : s.mode <;> simp only [hm, isWait] at hw h hpm
+    all_goals
+      generalize processMessage (s, []) true msg = res at h hpm
+      obtain ⟨a1, b⟩ := res
+      cases b
+      · simp only at h hpm
+        first
+          | (injection h with h; subst h; exact hpm)
+          | (split at h
+             · cases h
+             · injection h with h; subst h; exact hpm)
+      · simp only at h hpm
+        rw [hpm] at h
+        cases h
+
+example : isWait (.waitLink 1024 (some 1) 1000) := trivial
+
+/-- the link status check gets its deadline when the request goes out: one response timeout ahead -/
+theorem link_check_deadline_at_start (a : Acc) (dest : Nat) (uid : Option Nat) (x : Assoc)
+    (hx : a.1.getAssoc dest = some x) :
+    beginTask a dest (.linkStatus uid) =
+      .waiting (setMode (emit a (.txLink 0xC9 dest 1)) (.waitLink dest uid (a.1.now + x.cfg.rto))) := by
+  unfold beginTask
+  simp only [hx]
+  rfl
+
+/-- while a link status check is outstanding no event moves its deadline: a message either ends the
+    check (association gone, disable, shutdown) or leaves the wait untouched; a fragment, a link
+    frame and the loss of the connection end it; time passing below the deadline changes nothing -/
+theorem link_check_deadline_fixed (s : MState) (dest dl : Nat) (uid : Option Nat) (hm : s.mode = .waitLink dest uid dl) :
+    (∀ m a', onMessage (s, []) m = .waiting a' → a'.1.mode = .waitLink dest uid dl) ∧
+    (∀ src frag a', onFragment (s, []) src frag ≠ .waiting a') ∧
+    (∀ src a', onLinkMsg (s, []) src ≠ .waiting a') ∧
+    (∀ a', onTime (s, []) = .waiting a' → a' = (s, []) ∧ s.now < dl) ∧
+    (∀ a', onEof (s, []) ≠ .waiting a') := by
+  refine ⟨?_, ?_, ?_, ?_, ?_⟩
+  · intro m a' h
+    rw [← hm]
+    exact message_never_extends_wait s m a' (by rw [hm]; trivial) h
+  · intro src frag a'
+    unfold onFragment
+    simp only [hm]
+    split <;> simp
+  · intro src a'
+    unfold onLinkMsg
+    simp [hm]
+  · intro a' h
+    unfold onTime at h
+    simp only [hm] at h
+    split at h
+    · cases h
+    · injection h with h
+      exact ⟨h.symm, by omega⟩
+  · intro a'
+    unfold onEof
+    simp [hm]
+
+/-- hence the check is bounded by one response timeout: whatever happened in between, once the
+    clock reaches the deadline fixed at the start the check ends with `ResponseTimeout` -/
+theorem link_check_bounded (s : MState) (dest dl : Nat) (uid : Option Nat) (hm : s.mode = .waitLink dest uid dl)
+    (ms : Nat) (h : dl ≤ s.now + ms) :
+    onTime ({ s with now := s.now + ms }, []) = .linkDone ({ s with now := s.now + ms }, []) uid (some .timeout) := by
+  unfold onTime
+  simp [hm, h]
+
+/-- regression for D24 (repaired): a link status check with a 1000 ms timeout, an unrelated message
+    at 999 ms; the check ends at 1000 ms with `ResponseTimeout` (before the repair it was still
+    outstanding at 1998 ms with its deadline moved to 1999) -/
 def d24State : MState :=
   { assocs := [{ addr := 1024, cfg := { rto := 1000, dis := 0, int := 0, en := 0 }, polls := [⟨0, 1, 60000, 60000⟩], pollId := 1 }],
     ring := [1024], mode := .waitLink 1024 (some 1) 1000, live := 1 }
 
-theorem link_check_deadline_rearmed_counterexample :
+theorem link_check_not_rearmed_regression :
     let s1 := (Master.step d24State (.tick 999)).1
-    let s2 := (Master.step s1 (.msg (.demand 1024 0))).1
-    let r3 := Master.step s2 (.tick 999)
-    r3.2 = [] ∧ r3.1.now = 1998 ∧ (match r3.1.mode with | .waitLink _ _ dl => dl | _ => 0) = 1999 := by decide
+    let r2 := Master.step s1 (.msg (.demand 1024 0))
+    let r3 := Master.step r2.1 (.tick 1)
+    r2.2 = [] ∧ (match r2.1.mode with | .waitLink _ _ dl => dl | _ => 0) = 1000 ∧
+    r3.1.now = 1000 ∧ MOut.complete 1 (.task .timeout) ∈ r3.2 := by decide
 
 end Dnp3.Props.C16
